@@ -400,8 +400,9 @@ bool StateMachine::Impl::run(Event event)
         return false;
     }
 
-    //! 如果有子状态机，则给子状态机处理
-    if (curr_state_->sub_sm != nullptr) {
+    //! 如果有正在运行的子状态机，则给子状态机处理
+    //! 子状态机终止并被停止后，事件由本状态机自己处理
+    if (curr_state_->sub_sm != nullptr && curr_state_->sub_sm->is_running_) {
         bool ret = curr_state_->sub_sm->run(event);
         if (!curr_state_->sub_sm->isTerminated())
             return ret;
